@@ -27,7 +27,12 @@ Definition shows (s : st) (i : inst) : Prop :=
     end.
 Definition vals3 (v : list (option val)) : Prop := exists a b c, v = [Some a; Some b; Some c].
 
-Definition hp (i : inst) : Prop := dirty_ok i /\ (is_lazy (i_k i) = false -> i_pending i = []).
+(* guard04 histories never expire an instance *)
+Definition hp (i : inst) : Prop := dirty_ok i /\ (is_lazy (i_k i) = false -> i_pending i = []) /\ i_expired i = false.
+
+(* hp of a rewritten instance from hp of the original *)
+Ltac hp_from H := let A := fresh in let B := fresh in let C := fresh in
+  destruct H as (A & B & C); split; [exact A|split; [exact B|first [exact C|reflexivity]]].
 
 (* what is known of an instance, apart from its registration *)
 Definition ok_base (m : mode) (s : st) (i : inst) : Prop :=
@@ -49,8 +54,8 @@ Record Inv (cfg : config) (m : mode) (roots : list nat) (s : st) : Prop := {
   inv_P : forall pk, In pk (pickles s) -> p_id pk < t_next (tbl s (p_k pk));
   inv_O : forall i, In i (heap s) -> i_obsolete i = true ->
             assoc (i_id i) (t_rows (tbl s (i_k i))) = None /\ i_id i < t_next (tbl s (i_k i));
-  inv_X : nu m = true -> doCache cfg = true -> forall k id o, cached s k id o ->
-            i_obsolete (get_inst s o) = false /\ row_exists s k id;
+  inv_X : forall k id o, cached s k id o ->
+            i_obsolete (get_inst s o) = false /\ (nu m = true -> row_exists s k id);
   inv_H : Forall hp (heap s);
   inv_Z : forall k, c_present (cch s k) = false -> forall id o, ~ cached s k id o;
   inv_L : forall o, live s roots o -> ok_obj m s o
@@ -98,7 +103,7 @@ Proof.
   - intros _ k; destruct k; reflexivity.
   - tauto.
   - tauto.
-  - intros _ _ k id o [H|H]; destruct k; cbn in H; tauto.
+  - intros k id o [H|H]; destruct k; cbn in H; tauto.
   - constructor.
   - intros k _ id o [H|H]; destruct k; cbn in H; tauto.
   - intros o [[]|[[]|(k & id & H)]]. destruct k; cbn in H; tauto.
@@ -122,5 +127,5 @@ Qed.
 Lemma get_inst_hp cfg m roots s o : Inv cfg m roots s -> hp (get_inst s o).
 Proof.
   intros H. unfold get_inst. apply Forall_nth_default; [apply (inv_H _ _ _ _ H)|].
-  split; [reflexivity|reflexivity].
+  split; [reflexivity|split; reflexivity].
 Qed.
